@@ -45,16 +45,21 @@ func init() {
 			"(capacity) 2..84 sections and up to 1368 banks so that the TD-HOB section is exactly full / has one or two descriptors to spare / gets one too many first (TD-HOB of 1-4 and 6-30 pages; descriptor counts around 84, 169, 254, 340, 256 and 65536/48); " +
 			"(concurrent-with-failing) 4-12 goroutines, failing calls of the same kinds among the good ones; " +
 			"(magnitude) TD-HOB + temporary memory adding up to exactly the 64 MiB the repository allows / one page less / a few pages less / half of it / around 16 MiB (65536 MR.EXTEND chunks in one section) / 1 MiB..64 MiB, cut into 1-6 sections in every way (TD-HOB alone, one large section, exact halves, equal parts, single pages plus the rest) declared in any order between the firmware volumes of an 8 KiB..2 MiB image, " +
-			"empty temporary-memory sections after the section that completes the total, first a call for a layout past the bound (one page, one section, 64 MiB more; counted, not judged), the three modes and the default / one-shape endorsement rows. " +
+			"empty temporary-memory sections after the section that completes the total, first a call for a layout past the bound (one page, one section, 64 MiB more; counted, not judged), the three modes and the default / one-shape endorsement rows; " +
+			"(directive) 1-3 EMPTY temporary-memory sections whose base lies strictly inside a firmware volume / the TD HOB / temporary memory (also two at one address; declared before or after the enclosing section, first, last, before the TD HOB; inside and at the edges of RAM banks), temporary memory flagged EXTEND in 1..all sections, " +
+			"and for every extractor the returned regions measured the way they themselves direct: by the model's record stream with MR.EXTEND where the region's own EXTEND bit is set, by the repository's tdx.NewMeasurement() (follows the directive) and tdx.NewMeasurementTDHOBBug() (forces). " +
 			"Oracle: for a model-valid image/configuration tdx.MRTD must return the model's SHA-384 record stream digest; regions returned by ovmf.Extract* must be the declared sections in declared order with the image bytes / the model's TD-HOB (decoded by an independent HOB reader: hand-off table, one system-memory descriptor per section, unaccepted = RAM minus sections ascending with the early-accept rule, end marker, zero padding); " +
 			"shape bank lists must equal the model's table; every UnsignedTDX row must equal the model for its shape/mode; the grid's unaccepted descriptors must equal a per-page characteristic-function sweep. " +
+			"regions measured as they direct must give the model's MRTD of the mode their extractor stands for (so the regions of the two legacy extractors say EXTEND for every section that has pages); a digest returned for a layout with EXTEND-flagged temporary memory in default mode must not be the stream in which a flagged section contributes page-add records only. " +
 			"a result that equalled the model when it was returned must still do so (TD-HOB bytes, digest of its regions under the model's record stream) after later calls, and every concurrent call must return the model's value. " +
 			"distinct non-trivial cell = (kind, mode, #sections bucket, #unaccepted bucket, layout features) with an MRTD that was computed and compared",
 		Assumptions: []string{
 			"the default launch configuration describes no guest RAM in the TD-HOB (tdx.LaunchOptionsDefault carries no banks and ovmf.ExtractMaterialGuestPhysicalRegions takes none); a bank list passed together with default mode is counted, not judged",
 			"unaccepted memory is described bank by bank: adjacent banks are not merged (NUMA nodes stay separate descriptors)",
 			"model-valid = signature/version/length, types 0..3, exactly one TD-HOB, >=1 BFV, FV data inside the image with data size = memory size and sizes adding up to the image size, page-aligned non-wrapping pairwise-disjoint memory ranges that are non-empty except for temporary memory (an empty temporary-memory section contributes its length-0 descriptor in declared order, no records, and does not take part in RAM-minus-sections), TD-HOB section large enough for its list; anything else carries no verdict here (C08)",
-			"temporary-memory sections flagged EXTEND have no contents defined by the property: in default mode their MRTD is counted, not judged (legacy modes measure zeros like every other temporary memory)",
+			"temporary-memory sections flagged EXTEND have no contents defined by the property: in default mode a refusal and an MRTD are counted, not judged (legacy modes measure zeros like every other temporary memory) - except that an MRTD equal to the record stream in which a flagged section contributes page-add records only is wrong whatever the contents are ('sections not flagged for extension contribute page-add records only')",
+			"the regions returned by ovmf.ExtractMaterialGuestPhysicalRegionsTDHOBBug / ...NoUnacceptedMemory ARE the legacy measure-everything request as far as those entry points are concerned (their result is all a caller has): the EXTEND directive of every returned region that has pages must be set. LaunchOptions{DisableUnacceptedMemory} without MeasureAllRegions is a fourth flag combination outside the three modes: observed, not judged",
+			"an empty temporary-memory section overlaps nothing wherever its base lies, also strictly inside another declared section or RAM bank",
 			"valid metadata declares at most 64 MiB of TD-HOB plus temporary memory (the repository's documented resource bound, DESIGN 8.2 F08: '<= 64 MiB'; its validation refuses sizes 'larger than 0x4000000 bytes'): a total of exactly 64 MiB is judged like any other layout, a larger one is counted, not judged (C08)",
 			"machine shapes: 4 GiB per vCPU, 3 GiB below the hole, 2 MiB firmware window below 4 GiB, NUMA nodes of 176 GiB above 4 GiB",
 		},
@@ -300,6 +305,7 @@ type runner struct {
 	concOK        int
 	aud           audit
 	mag           magStats
+	dir           dirStats
 }
 
 func witness(fw []byte, sp any, banks []tdxref.Range, m tdxref.Mode, more map[string]any) map[string]any {
@@ -345,6 +351,13 @@ func (r *runner) checkRegions(i int, gen, entry string, fw []byte, exp *tdxref.E
 		// The EXTEND directive a consumer of the regions sees: in default mode exactly the declared flag.
 		if m == tdxref.ModeDefault && (g.TDVFAttributes&1 != 0) != (s.Attr&1 != 0) {
 			r.viol(i, entry, "region-extend-flag", gen, w(nil), "region %d attributes %#x, declared %#x", k, g.TDVFAttributes, s.Attr)
+			ok = false
+		}
+		// From the two legacy extractors ("all TDVF metadata sections are measured") every section that has pages
+		// says "extend me": the regions are all those entry points return, so the directive is the only place where
+		// "measure everything" can be expressed to their consumer (an empty section has nothing to extend: not judged).
+		if m != tdxref.ModeDefault && s.MemSize != 0 && g.TDVFAttributes&1 == 0 {
+			r.viol(i, entry, "region-extend-flag", gen, w(nil), "region %d (declared attributes %#x) comes back from the legacy measure-everything extractor with attributes %#x: a consumer that follows the directive adds its pages without extending them", k, s.Attr, g.TDVFAttributes)
 			ok = false
 		}
 		switch s.Type {
@@ -472,6 +485,11 @@ func (r *runner) measure(i int, kind, gen string, fw []byte, banks []tdxref.Rang
 				c.Note("observation (no verdict): default mode with a temporary-memory section flagged EXTEND is rejected by tdx.MRTD (InitMemoryRegion: gpr.Length does not match source data size 0)")
 			} else if got == exp.MRTD {
 				c.Count("unspecified/tempmem-extend-default/zeros-measured", 1)
+			} else if which := flagIgnored(fw, exp, got); which != "" {
+				// whatever the contents of temporary memory are taken to be, a FLAGGED section contributes MR.EXTEND
+				// records: a digest equal to the stream in which it contributes page-add records only is wrong.
+				r.viol(i, eMRTD, ruleFlagIgnored, g, witness(fw, exp.Layout, mb, m, map[string]any{"got": hex.EncodeToString(got[:]), "sections_measured_as_unflagged": which}),
+					"tdx.MRTD returned %x..., which is the record stream in which the EXTEND-flagged temporary-memory section(s) %s contribute page-add records only", got[:6], which)
 			} else {
 				c.Count("unspecified/tempmem-extend-default/other-value", 1)
 			}
@@ -755,6 +773,14 @@ func (r *runner) caseShapes(i int) {
 		gr := rows[k]
 		if !wr.judge {
 			c.Count("unspecified/tempmem-extend-default/row", 1)
+			if len(gr.GetMrtd()) == 48 {
+				var gm [48]byte
+				copy(gm[:], gr.GetMrtd())
+				if which := flagIgnored(fw, dexp, gm); which != "" {
+					wit["row"] = k
+					r.viol(i, eRows, ruleFlagIgnored, g, wit, "row %d (default): MRTD %x... is the record stream in which the EXTEND-flagged temporary-memory section(s) %s contribute page-add records only", k, gm[:6], which)
+				}
+			}
 			continue
 		}
 		if gr.GetRamGib() != wr.ram || gr.GetEarlyAccept() != wr.early || !bytes.Equal(gr.GetMrtd(), wr.mrtd[:]) {
@@ -1028,7 +1054,7 @@ func sameRanges(a, b []tdxref.Range) bool {
 }
 
 func run(c *core.Ctx) {
-	r := &runner{c: c, equalByMode: map[tdxref.Mode]int{}, shapesSeen: map[string]bool{}, aud: newAudit(), mag: newMagStats()}
+	r := &runner{c: c, equalByMode: map[tdxref.Mode]int{}, shapesSeen: map[string]bool{}, aud: newAudit(), mag: newMagStats(), dir: newDirStats()}
 	go r.brk.watch(c)
 	nShapes := c.N(120, 1500)
 	nLayout := c.N(2400, 28000)
@@ -1041,8 +1067,9 @@ func run(c *core.Ctx) {
 	nFit := c.N(96, 1200)
 	nCF := c.N(40, 480)
 	nMag := c.N(48, 576) // multiples of 16: every stratum of the family in every run
+	nDir := c.N(160, 1920) // multiples of 8: every kind of the family on every shard
 	gridRan := false
-	for i := 0; i < total+nSeq+nFit+nCF+nMag; i++ {
+	for i := 0; i < total+nSeq+nFit+nCF+nMag+nDir; i++ {
 		if !c.Mine(i) {
 			continue
 		}
@@ -1058,6 +1085,8 @@ func run(c *core.Ctx) {
 			r.caseShapes(i)
 		case j < nShapes+nLayout:
 			r.caseLayout(i)
+		case i >= total+nSeq+nFit+nCF+nMag:
+			r.caseDirective(i, i-(total+nSeq+nFit+nCF+nMag))
 		case i >= total+nSeq+nFit+nCF:
 			r.caseMagnitude(i, i-(total+nSeq+nFit+nCF))
 		case i >= total+nSeq+nFit:
@@ -1100,6 +1129,7 @@ func run(c *core.Ctx) {
 	c.Floor("concurrent-calls-compared", r.concOK > 0)
 	r.auditSummary()
 	r.magnitudeSummary()
+	r.directiveSummary()
 	for _, sh := range tdxref.Shapes {
 		if r.shapesSeen[sh.Name] {
 			c.Count("shape-equal/"+sh.Name, 1)
